@@ -28,4 +28,5 @@ Emit == DoEmit => PrintT(ToJson([f |-> "vfp", m |-> m, cs |-> SetToSeq({Case(p) 
 Spec == GenSpec
 cScalars == {VS("x"), VS("y")}
 cConts == {EmptyMap, EmptyList}
+cScalars1 == {VS("x")}
 =============================================================================
